@@ -113,6 +113,47 @@ func (c *C) replySites(fn *ssa.Function) (sites []replySite, unknown []string) {
 		}
 		return nil, nil
 	}
+	// the blocks of helper f reachable with the constants its parameters are bound to (a flag or a small enum passed as a
+	// literal, possibly handed on by an outer helper); nil when nothing is bound to a constant
+	reachWith := func(f *ssa.Function, env *envT) map[*ssa.BasicBlock]bool {
+		if env == nil {
+			return nil
+		}
+		consts := map[int][]*ssa.Const{}
+		for i, p := range f.Params {
+			v, e := env.bind[p], env.up
+			for d := 0; d < 4 && v != nil; d++ {
+				if k, ok := v.(*ssa.Const); ok && k.Value != nil && (isBoolType(k.Type()) || isIntType(k.Type())) {
+					consts[i] = []*ssa.Const{k}
+					break
+				}
+				if phi, ok := v.(*ssa.Phi); ok {
+					var ks []*ssa.Const
+					for _, ed := range phi.Edges {
+						if k, ok := ed.(*ssa.Const); ok && k.Value != nil && (isBoolType(k.Type()) || isIntType(k.Type())) {
+							ks = append(ks, k)
+						} else {
+							ks = nil
+							break
+						}
+					}
+					if len(ks) > 0 {
+						consts[i] = ks
+					}
+					break
+				}
+				q, ok := v.(*ssa.Parameter)
+				if !ok || e == nil {
+					break
+				}
+				v, e = e.bind[q], e.up
+			}
+		}
+		if len(consts) == 0 {
+			return nil
+		}
+		return prunedReach(f, consts)
+	}
 	walk = func(v ssa.Value, at ssa.Instruction, via string, depth int, env *envT) {
 		k := key{v, at}
 		if seen[k] {
@@ -178,7 +219,11 @@ func (c *C) replySites(fn *ssa.Function) (sites []replySite, unknown []string) {
 						a = call
 					}
 					ne := enter(cf, call.Call.Args, cenv)
+					reach := reachWith(cf, ne)
 					for _, b := range cf.Blocks {
+						if reach != nil && !reach[b] {
+							continue
+						}
 						if ret, ok := b.Instrs[len(b.Instrs)-1].(*ssa.Return); ok && x.Index < len(ret.Results) {
 							walk(ret.Results[x.Index], a, via+cf.Name()+">", depth+1, ne)
 						}
@@ -192,8 +237,9 @@ func (c *C) replySites(fn *ssa.Function) (sites []replySite, unknown []string) {
 		}
 	}
 	ofFunc = func(f *ssa.Function, at ssa.Instruction, via string, depth int, env *envT) {
+		reach := reachWith(f, env)
 		for _, b := range f.Blocks {
-			if len(b.Instrs) == 0 {
+			if len(b.Instrs) == 0 || (reach != nil && !reach[b]) {
 				continue
 			}
 			ret, ok := b.Instrs[len(b.Instrs)-1].(*ssa.Return)
@@ -541,6 +587,11 @@ func (c *C) ownedBy(v ssa.Value, seen map[ssa.Value]bool, depth int) (string, bo
 		switch n.Obj().Name() {
 		case "MemDb", "ConcurrentMap", "shard", "Locks", "ChanMap", "Chan", "TTLInfo", "command":
 			return "", false // infrastructure with its own locking rules (R15, R17, R6w)
+		}
+		// a record that is (part of) a stored value: reachable through fields from one of the container types; a helper
+		// record of an executor (option structs, poll state) owns nothing that other clients can see
+		if !c.storedRecordTypes()[n.Obj().Name()] {
+			return "", false
 		}
 		return n.Obj().Name(), true
 	}
@@ -1234,13 +1285,14 @@ func (a *arityFlow) filter(cond ssa.Value, m uint16, f *ssa.Function, depth int)
 			// the argument counts with which it can be zero, and with which it can be something else
 			if x.Op == token.EQL || x.Op == token.NEQ {
 				var v ssa.Value
-				if kk, ok := constInt(x.Y); ok && kk == 0 {
-					v = x.X
-				} else if kk, ok := constInt(x.X); ok && kk == 0 {
-					v = x.Y
+				var kEq int64
+				if kk, ok := constInt(x.Y); ok {
+					v, kEq = x.X, kk
+				} else if kk, ok := constInt(x.X); ok {
+					v, kEq = x.Y, kk
 				}
 				if v != nil && isIntType(v.Type()) {
-					if zm, nzm, ok := a.intZero(v, m, f, x.Block(), depth+1); ok {
+					if zm, nzm, ok := a.intEq(v, kEq, m, f, x.Block(), depth+1); ok {
 						if x.Op == token.EQL {
 							return zm, nzm
 						}
@@ -2101,18 +2153,20 @@ func (a *arityFlow) fieldTruth(rec ssa.Value, field int, m uint16, f *ssa.Functi
 // use in block `use` of function f. v is a constant, a phi, a parameter bound inside the family, or a result of a family
 // helper; a helper's returns that also hand back a non-nil reply or error are left out when the use lies behind the
 // caller's test of that companion result. ok is false when v's origin is not understood.
-func (a *arityFlow) intZero(v ssa.Value, m uint16, f *ssa.Function, use *ssa.BasicBlock, depth int) (zm, nzm uint16, ok bool) {
+func (a *arityFlow) intEq(v ssa.Value, K int64, m uint16, f *ssa.Function, use *ssa.BasicBlock, depth int) (zm, nzm uint16, ok bool) {
 	if depth > 8 {
 		return 0, 0, false
 	}
 	switch x := v.(type) {
 	case *ssa.Const:
 		if k, isInt := constInt(x); isInt {
-			if k == 0 {
+			if k == K {
 				return m, 0, true
 			}
 			return 0, m, true
 		}
+	case *ssa.ChangeType:
+		return a.intEq(x.X, K, m, f, use, depth+1)
 	case *ssa.Phi:
 		all := true
 		for i, e := range x.Edges {
@@ -2120,7 +2174,7 @@ func (a *arityFlow) intZero(v ssa.Value, m uint16, f *ssa.Function, use *ssa.Bas
 			if i < len(x.Block().Preds) {
 				em = m & a.edge[[2]*ssa.BasicBlock{x.Block().Preds[i], x.Block()}]
 			}
-			z, nz, ok2 := a.intZero(e, em, f, x.Block().Preds[i], depth+1)
+			z, nz, ok2 := a.intEq(e, K, em, f, x.Block().Preds[i], depth+1)
 			if !ok2 {
 				all = false
 			}
@@ -2131,7 +2185,7 @@ func (a *arityFlow) intZero(v ssa.Value, m uint16, f *ssa.Function, use *ssa.Bas
 	case *ssa.UnOp:
 		if x.Op == token.MUL {
 			if cv := a.cellValue(x.X, f); cv != nil {
-				return a.intZero(cv, m, f, use, depth+1)
+				return a.intEq(cv, K, m, f, use, depth+1)
 			}
 		}
 	case *ssa.Parameter:
@@ -2153,7 +2207,7 @@ func (a *arityFlow) intZero(v ssa.Value, m uint16, f *ssa.Function, use *ssa.Bas
 						continue
 					}
 					any = true
-					z, nz, ok2 := a.intZero(ci.Common().Args[idx], a.in[b], g, b, depth+1)
+					z, nz, ok2 := a.intEq(ci.Common().Args[idx], K, a.in[b], g, b, depth+1)
 					if !ok2 {
 						all = false
 					}
@@ -2241,7 +2295,7 @@ func (a *arityFlow) intZero(v ssa.Value, m uint16, f *ssa.Function, use *ssa.Bas
 				if _, isC := rv.(*ssa.Const); !isC {
 					if _, isPhi := rv.(*ssa.Phi); !isPhi {
 						// a computed value: non-zero when a dominating test of it says so, else either
-						if a.knownNonZero(rv, b) {
+						if K == 0 && a.knownNonZero(rv, b) {
 							nzm |= bm
 						} else {
 							zm |= bm
@@ -2250,7 +2304,7 @@ func (a *arityFlow) intZero(v ssa.Value, m uint16, f *ssa.Function, use *ssa.Bas
 						continue
 					}
 				}
-				z, nz, ok2 := a.intZero(rv, bm, h, b, depth+1)
+				z, nz, ok2 := a.intEq(rv, K, bm, h, b, depth+1)
 				if !ok2 {
 					all = false
 				}
@@ -2318,4 +2372,76 @@ func (a *arityFlow) knownNonZero(v ssa.Value, b *ssa.BasicBlock) bool {
 		}
 	}
 	return false
+}
+
+// storedRecordTypes: the names of the memdb struct types that make up stored values: the container types and every
+// struct reachable from them through fields, pointers, slices, arrays and maps.
+func (c *C) storedRecordTypes() map[string]bool {
+	if c.storedTypesMemo != nil {
+		return c.storedTypesMemo
+	}
+	out := map[string]bool{}
+	seen := map[types.Type]bool{}
+	var visit func(t types.Type, depth int)
+	visit = func(t types.Type, depth int) {
+		if t == nil || seen[t] || depth > 10 {
+			return
+		}
+		seen[t] = true
+		switch u := t.(type) {
+		case *types.Pointer:
+			visit(u.Elem(), depth+1)
+		case *types.Slice:
+			visit(u.Elem(), depth+1)
+		case *types.Array:
+			visit(u.Elem(), depth+1)
+		case *types.Map:
+			visit(u.Key(), depth+1)
+			visit(u.Elem(), depth+1)
+		case *types.Named:
+			if u.Obj().Pkg() != nil && u.Obj().Pkg().Path() == ModPath+"/memdb" {
+				if st, ok := u.Underlying().(*types.Struct); ok {
+					out[u.Obj().Name()] = true
+					for i := 0; i < st.NumFields(); i++ {
+						visit(st.Field(i).Type(), depth+1)
+					}
+				}
+			}
+			if ta := u.TypeArgs(); ta != nil {
+				for i := 0; i < ta.Len(); i++ {
+					visit(ta.At(i), depth+1)
+				}
+			}
+		case *types.Struct:
+			for i := 0; i < u.NumFields(); i++ {
+				visit(u.Field(i).Type(), depth+1)
+			}
+		}
+	}
+	sp := c.P.Pkg("memdb")
+	if sp != nil {
+		for _, m := range sp.Members {
+			t, ok := m.(*ssa.Type)
+			if !ok {
+				continue
+			}
+			switch t.Name() {
+			case "List", "Set", "Hash", "SortedSet", "Stream", "Btree", "Node", "ListNode", "SortedSetNode", "StreamID":
+				visit(t.Type(), 0)
+			}
+		}
+	}
+	// instantiated generic containers met in function bodies
+	for _, fn := range c.P.allFuncs("memdb") {
+		for _, p := range fn.Params {
+			if n, ok := derefNamed(p.Type()); ok && n.Obj().Pkg() != nil && n.Obj().Pkg().Path() == ModPath+"/memdb" {
+				switch n.Obj().Name() {
+				case "SortedSet", "Btree", "Node":
+					visit(n, 0)
+				}
+			}
+		}
+	}
+	c.storedTypesMemo = out
+	return out
 }
